@@ -56,7 +56,7 @@ func genC13(g *gen, seed int64) *Program {
 		r.Kind = []int{KUnary, KServerStream, KClientStream, KBidi}[g.pick(4)]
 		g.plainScripts(r)
 		if g.p(0.8) {
-			r.Creds = &CredSpec{Secure: g.p(0.5), Fail: g.p(0.12)}
+			r.Creds = &CredSpec{Secure: g.p(0.5), Fail: g.p(0.12), Canon: g.p(0.3)}
 			switch g.pick(4) {
 			case 0: // empty map
 			case 1:
@@ -205,6 +205,9 @@ func oracleC13(s *Sim) {
 		// on to whatever the application uses that context for next)
 		if v.newstream != nil && r.Creds != nil && !r.Creds.Fail && v.newstream.Flags["ctx-md-has-creds"] != "" {
 			v.fail("C13", "stream-context-carries-credentials|"+shape, "stream.Context() has outgoing metadata %s, which is what the per-RPC credentials supplied, not what the caller attached", v.newstream.Flags["ctx-md-has-creds"])
+		}
+		if leak := v.hStart.Flags["clientctx-md-has-creds"]; leak != "" && !r.Creds.Fail {
+			v.fail("C13", "client-context-carries-credentials|"+shape, "inprocgrpc.ClientContext(handler ctx) has outgoing metadata %s, which is what the per-RPC credentials supplied, not what the caller attached", leak)
 		}
 		// peer as the handler sees it
 		hp := v.hStart.Flags["peer"]
